@@ -548,6 +548,12 @@ func monC05(tr *Trace, br map[string]int) (out []Violation) {
 		}
 		t := computeTally(c.pre)
 		br["c05:tally"]++
+		if t.total.Sign() == 0 {
+			// no bonded, unjailed validator at all: a chain in that state produces no blocks; "the threshold fraction of the active
+			// power" is then zero of zero and the statement says nothing (the theorems carry 0 < total)
+			br["c05:tally-without-active-power"]++
+			return
+		}
 		if len(t.accepted) > 0 {
 			br["c05:tally-with-accepted"]++
 		}
